@@ -15,11 +15,11 @@ CLAIMED = {
    technique="deterministic simulation: seeded attribute histories with restarts vs map model over a simulated disk",
    ref="DESIGN.md section 4 C02"),
  "C03": dict(level="exploration", engine="E1-history-simulator",
-   text="Seeded deterministic simulation of namespace-building histories (groups, datasets, hard/soft/external links, dense groups, duplicates, missing parents, capacity exhaustion) followed by a restart; the reopened tree must equal a tree model and the two rejections the statement demands must be errors.",
+   text="Seeded deterministic simulation of namespace-building histories (groups, datasets, hard/soft/external links, dense groups, duplicates, missing parents, capacity exhaustion incl. one group filled to and beyond its 32 entries) followed by a restart; the reopened tree must equal a tree model and the two rejections the statement demands must be errors.",
    technique="deterministic simulation: seeded namespace histories with capacity exhaustion vs tree model over a simulated disk",
    ref="DESIGN.md section 4 C03"),
  "C04": dict(level="exploration", engine="E1-history-simulator",
-   text="Seeded interleavings of operations over 2-6 live objects; every prefix of each history is re-executed as its own run ending in Close+Open+full logical dump and consecutive dumps are compared, so the first operation after which an untouched object changes (or the file stops opening) is named; the write log of the simulated disk attributes a clobbering write to the function that made it.",
+   text="Seeded interleavings of operations over 2-6 live objects (datasets incl. variable-length ones whose heap collections are flushed later, groups; later OpenForWrite sessions; bursts that push an object into dense attribute storage); every prefix of each history is re-executed as its own run ending in Close+Open+full logical dump and consecutive dumps are compared, so the first operation after which an untouched object changes (or the file stops opening) is named; the write log of the simulated disk attributes a clobbering write to the function that made it.",
    technique="deterministic simulation: prefix re-execution differential with restart after every prefix",
    ref="DESIGN.md section 4 C04"),
  "C05": dict(level="exploration", engine="E1-history-simulator",
@@ -44,7 +44,7 @@ CLAIMED = {
    technique="deterministic simulation: histories with failing calls vs model that ignores failed calls",
    ref="DESIGN.md section 4 C16"),
  "C17": dict(level="fault_enumeration", engine="E2-fault-simulator",
-   text="Per workload (a simulated E1 history that writes a file, or a bundled reference file) faults are enumerated, not sampled: every truncation length (small files; structure boundaries +-1 plus a stratified sample for larger ones), every position k of a failing ReadAt in the reader's I/O sequence, every position k of a failing WriteAt/ReadAt/Sync and a torn variant of every write in the writer's I/O sequence. Relaxed oracle: error or exactly the fault-free answer; no silently missing members/attributes; no panic; an unreported fault must change nothing. Worker processes run under an address-space limit and a hang watchdog; a process death is attributed to the announced trace and fault and reported after two fresh-process replays.",
+   text="Per workload (a simulated E1 history that writes a file, or a bundled reference file) faults are enumerated, not sampled: every truncation length (small files; structure boundaries +-1 plus a stratified sample for larger ones), every position k of a failing ReadAt in the reader's I/O sequence, every position k of a failing WriteAt/ReadAt/Sync and a torn variant of every write in the writer's I/O sequence. Relaxed oracle: error or exactly the fault-free answer; no silently missing members/attributes; no different ReadSlice values (centre and tail blocks); no panic; an unreported fault must change nothing - neither what the public read API returns nor what an independent decode of the file recovers (variable-length elements). Every reference file <= 4 KiB is part of every run in both reader modes. Worker processes run under an address-space limit and a hang watchdog; a process death is attributed to the announced trace and fault and reported after two fresh-process replays.",
    technique="deterministic fault enumeration over simulated I/O step sequences (EIO, torn writes, truncation) with golden-answer oracle",
    note="Trusted base: the fault layer behind the H3/H4 seams, the relaxed comparison (sim/e2), Go toolchain. Workloads are sampled (320 quick / 6000 thorough), fault positions per workload are exhaustive up to the stated bounds. Sync faults only test error propagation (tmpfs).",
    ref="DESIGN.md section 4 C17"),
@@ -64,17 +64,17 @@ CLAIMED = {
    note="Trusted base: the invariant checker in sim/e1/c19.go, the simulated Clock. The BTreeV2 adapter in the selector part is a stub (file size only).",
    ref="DESIGN.md section 4 C19"),
  "C18": dict(level="exploration", engine="E4-schedule-simulator",
-   text="Each simulated run is one testing/synctest bubble inside a -race binary: caller tasks and the library's own ticker/monitor goroutines are serialised by seeded fake-clock delays at yield points (operation boundaries, every I/O call, H2 sites inside the rebalancers and the selector, timer firings) - no happens-before edge is added, so the race detector reports every unsynchronised conflicting access that occurs in the explored schedule. Oracles: no race report with a library frame (incl. sync-primitive misuse annotations), no panic, every Stop returns within the step budget (bounded liveness), no library goroutine alive after the last Stop, independent handles give the sequential results, the incremental-mode script gives the same call results and final index content as the same script without the background rebalancer, and a library mutex that is never released (which stalls the bubble in real time) is reported as a deadlock after a 15 s real-time limit. Failing schedules are minimised over the explicit trace (scripts and delay lists) and must reproduce twice in fresh processes (up to 8 attempts: see note).",
+   text="Each simulated run is one testing/synctest bubble inside a -race binary: caller tasks and the library's own ticker/monitor goroutines are serialised by seeded fake-clock delays at yield points (operation boundaries, every I/O call, H2 sites inside the rebalancers and the selector, timer firings) - no happens-before edge is added, so the race detector reports every unsynchronised conflicting access that occurs in the explored schedule. Oracles: no race report with a library frame (incl. sync-primitive misuse annotations), no panic, every Stop returns within the step budget (bounded liveness), no library goroutine alive after the last Stop, independent handles give the sequential results, the incremental-mode script gives the same call results and final index content as the same script without the background rebalancer, and a library mutex that is never released (which stalls the bubble in real time) is reported as a deadlock after a 15 s real-time limit; the deterministic buffer pool reports a scratch buffer that is released twice; a metrics snapshot must not change after it was taken; no monitor goroutine may be parked in its loop when Stop has returned (also when the context's owner cancelled it first); readers of damaged copies run next to healthy handles. Failing schedules are minimised over the explicit trace (scripts and delay lists) and must reproduce twice in fresh processes (up to 8 attempts: see note).",
    technique="deterministic simulation: seeded fake-time scheduler inside testing/synctest under the race detector",
    note="Trusted base: Go's race detector and testing/synctest (go1.26.8), the scheduler in sim/e4/sched.go. Interleavings at the granularity of yield points, I/O calls and timer firings. A background goroutine sleeps at a yield point only if it wakes before its ticker's next firing (otherwise Go's select could find a tick and a stop request ready together and would choose with the runtime's unseeded PRNG); in smart-rebalancer traces where more than one caller uses Start/Stop background goroutines do not sleep at all (a caller blocked on the lifecycle mutex is not durably blocked in synctest). Measured residual nondeterminism at GOMAXPROCS=1 (the only setting workers use): about 1 run in 300, when the library makes two goroutines runnable at the same instant (wg.Done + go); replays therefore get up to 8 attempts to reproduce twice.",
    ref="DESIGN.md section 4 C18"),
  "C07": dict(level="exploration", engine="E2-fault-simulator",
-   text="Storage-corruption fault injection: per workload (bundled reference file or file written by a simulated history) seeded, decoder-directed alterations of the stored bytes (boundary values over positions in every metadata structure, self-referential addresses, version-1 B-tree nodes turned into 12-60 level ladders of shared children, random multi-byte mutations, truncations) are applied one at a time and everything reachable is read through the public API, in crash-tolerant worker processes under a 4 GiB address-space limit and a hang watchdog; a process death is attributed to the announced trace+mutation (allocation/overflow site taken from the dying goroutine's stack) and reported only after two fresh-process replays.",
+   text="Storage-corruption fault injection: per workload (bundled reference file or file written by a simulated history) seeded, decoder-directed alterations of the stored bytes (boundary values over positions in every metadata structure, self-referential addresses, version-1 B-tree nodes turned into 12-60 level ladders of shared children, extent sweeps that set every aligned 8/4-byte field position of a structure's header part to all-ones / the sign bit / 2^64-16, random multi-byte mutations, truncations) are applied one at a time and everything reachable is read through the public API, in crash-tolerant worker processes under a 4 GiB address-space limit and a hang watchdog; a process death is attributed to the announced trace+mutation (allocation/overflow site taken from the dying goroutine's stack) and reported only after two fresh-process replays.",
    technique="deterministic simulation with stored-byte fault injection (seeded, decoder-directed), isolated crash-tolerant workers",
    note="Trusted base: the independent decoder for locating metadata structures (placement only), the resource oracle constants (1e5+64*size reads, 256 MiB+1100*size bytes), Go toolchain. Sampling, not proof; inputs > 4 MiB not explored.",
    ref="DESIGN.md section 4 C07"),
  "C08": dict(level="exploration", engine="E2-fault-simulator",
-   text="Per run a seeded filter pipeline (any order of deflate/shuffle/Fletcher-32/LZF) and payload: writer Apply/Remove (lossless), the reader's ApplyFilters on the same bytes and the reader's parser on the stored pipeline message (self-compatible), and stored-chunk fault injection - every single byte position of a Fletcher-32-protected chunk altered with three values, decoding must fail on both sides; half of the runs also take a filtered chunked dataset end to end through the public API over the simulated disk with a restart.",
+   text="Per run a seeded filter pipeline (any order of deflate/shuffle/Fletcher-32/LZF) and payload (0 B .. 64 KiB; rarely 1-4 MiB of one byte value for compression ratios above 1000:1): writer Apply/Remove (lossless), the reader's ApplyFilters on the same bytes and the reader's parser on the stored pipeline message (self-compatible), and stored-chunk fault injection - every single byte position of a Fletcher-32-protected chunk altered with three values, decoding must fail on both sides; half of the runs also take a filtered chunked dataset end to end through the public API over the simulated disk with a restart.",
    technique="deterministic simulation: writer/reader differential, stored-chunk byte-flip enumeration, end-to-end restart",
    note="Trusted base: the comparison code in sim/e2/c08.go. Payload generation at package level is plain input generation; the simulation contributes the stored-byte faults and the restart path.",
    ref="DESIGN.md section 4 C08"),
